@@ -274,7 +274,7 @@ Proof.
   assert (Hn : ~ In (perm x) sec).
   { intros Hin. eapply Permutation_in in Hin; [|exact HP]. apply in_map_iff in Hin.
     destruct Hin as (y & Hy & Hin). apply perm_inj in Hy. subst.
-    eapply set_insert_true_notin; eauto. }
+    exact (set_insert_true_notin x prim Hp Hb Hin). }
   apply set_insert_flag in Hn; auto.
   eapply perm_trans; [apply set_insert_true_perm; auto|].
   eapply perm_trans; [apply perm_skip, HP|].
@@ -346,12 +346,10 @@ Ltac cmpN x y :=
     rewrite ?H1, ?H2, ?H3, ?H4 ];
   cbn [andb orb negb].
 
+Lemma leb_lleb A (key : A -> list N) x y : leb A key x y = lleb (key x) (key y).
+Proof. reflexivity. Qed.
 Ltac unfold_btw :=
-  unfold between, leb, cmp, key3, key4; fold (lleb);
-  repeat match goal with
-  | |- context [match str_cmp ?a ?b with Gt => false | _ => true end] => change (match str_cmp a b with Gt => false | _ => true end) with (lleb a b)
-  end;
-  rewrite ?lleb_cons, ?lleb_nil.
+  unfold between; rewrite !leb_lleb; unfold key3, key4; rewrite ?lleb_cons, ?lleb_nil.
 
 Lemma zero_ltb_or x : (0 <? x) || (0 =? x) = true.
 Proof. destruct x; reflexivity. Qed.
@@ -486,52 +484,48 @@ Lemma ensure_index_spec max ti t ti' r :
 Proof.
   intros HI E. unfold ensure_index in E.
   pose proof (tinv_mem max ti t HI) as Hm.
-  destruct HI as [HB HL]. fold (get_index ti t) in E.
+  fold (get_index ti t) in E.
   destruct (get_index ti t) as [i|] eqn:Eg.
-  - inversion E; subst. repeat split; auto; try lia; try apply HB; auto.
-    + apply HB; auto.
-    + apply HB in H. tauto.
-    + apply HB in H. tauto.
-    + unfold intern. destruct (memN t (i2t ti')) eqn:M; auto.
-      assert (memN t (i2t ti') = true) by (apply Hm; congruence). congruence.
+  - inversion E; subst. split; [exact HI|]. split; [auto|]. split; [lia|]. split; [auto|].
+    split; [exact Eg|].
+    unfold intern. assert (M : memN t (i2t ti') = true) by (apply Hm; congruence).
+    rewrite M. reflexivity.
   - assert (Mf : memN t (i2t ti) = false).
-    { destruct (memN t (i2t ti)) eqn:M; auto. apply Hm in M. congruence. }
+    { destruct Hm as [Hm1 _]. destruct (memN t (i2t ti)); auto. exfalso. apply Hm1; auto. }
     destruct (max <=? tlen ti) eqn:Ec.
-    + inversion E; subst. repeat split; auto; try lia; try apply HB; auto.
-      * apply HB; auto.
-      * apply HB in H. tauto.
-      * apply HB in H. tauto.
-      * unfold intern. rewrite Mf. fold (tlen ti'). rewrite Ec. reflexivity.
-    + inversion E; subst; clear E. apply N.leb_gt in Ec.
-      assert (Hlen : tlen (mkTI ((t, tlen ti) :: t2i ti) (i2t ti ++ [t])) = tlen ti + 1).
-      { unfold tlen. simpl. rewrite app_length. simpl. lia. }
-      assert (Hold : forall i, i < tlen ti ->
-                get_term (mkTI ((t, tlen ti) :: t2i ti) (i2t ti ++ [t])) i = get_term ti i).
-      { intros i Hi. unfold get_term. simpl. apply get_term_app_lt. exact Hi. }
-      assert (Hnew : get_term (mkTI ((t, tlen ti) :: t2i ti) (i2t ti ++ [t])) (tlen ti) = t).
-      { unfold get_term, tlen. simpl. apply get_term_app_eq. }
-      repeat split.
-      * (* -> *)
-        unfold get_index. simpl. destruct (N.eqb_spec t t0) as [->|Hne].
-        -- intros H; inversion H; subst. rewrite Hlen. lia.
-        -- intros H. apply HB in H. rewrite Hlen. lia.
-      * unfold get_index in *. simpl in *. destruct (N.eqb_spec t t0) as [->|Hne].
-        -- inversion H; subst. apply Hnew.
-        -- apply HB in H. destruct H as [Hi Ht]. rewrite Hold; auto.
-      * (* <- *)
-        intros [Hi Ht]. rewrite Hlen in Hi. unfold get_index. simpl.
-        destruct (N.eq_dec i (tlen ti)) as [->|Hne].
-        -- rewrite Hnew in Ht. subst. rewrite N.eqb_refl. reflexivity.
-        -- assert (Hi' : i < tlen ti) by lia. rewrite Hold in Ht by auto.
-           assert (Hg : get_index ti t0 = Some i) by (apply HB; auto).
-           destruct (N.eqb_spec t t0) as [->|Hne2]; [congruence|]. exact Hg.
+    + inversion E; subst. split; [exact HI|]. split; [auto|]. split; [lia|]. split; [auto|].
+      split; [reflexivity|].
+      unfold intern. rewrite Mf. fold (tlen ti'). rewrite Ec. reflexivity.
+    + inversion E; subst; clear E. apply N.leb_gt in Ec. destruct HI as [HB HL].
+      set (ti' := mkTI ((t, tlen ti) :: t2i ti) (i2t ti ++ [t])).
+      assert (Hlen : tlen ti' = tlen ti + 1).
+      { unfold tlen, ti'. simpl. rewrite app_length. simpl. lia. }
+      assert (Hold : forall i, i < tlen ti -> get_term ti' i = get_term ti i).
+      { intros i Hi. unfold get_term, ti'. simpl. apply get_term_app_lt. exact Hi. }
+      assert (Hnew : get_term ti' (tlen ti) = t).
+      { unfold get_term, tlen, ti'. simpl. apply get_term_app_eq. }
+      assert (Hgi : forall t0, get_index ti' t0 = if N.eqb t t0 then Some (tlen ti) else get_index ti t0).
+      { intros t0. reflexivity. }
+      assert (Hi2t : i2t ti' = i2t ti ++ [t]) by reflexivity.
+      clearbody ti'.
+      split; [split|].
+      * intros t0 i0. rewrite Hgi, Hlen. destruct (N.eqb_spec t t0) as [<-|Hne].
+        -- split.
+           ++ intros H; injection H as <-. split; [lia | exact Hnew].
+           ++ intros [Hi Ht]. destruct (N.eq_dec i0 (tlen ti)) as [->|Hne]; auto.
+              assert (Hi' : i0 < tlen ti) by lia. rewrite Hold in Ht by auto.
+              assert (Hg : get_index ti t = Some i0) by (apply HB; auto). congruence.
+        -- split.
+           ++ intros H. apply HB in H. destruct H as [Hi Ht]. split; [lia|]. rewrite Hold; auto.
+           ++ intros [Hi Ht]. destruct (N.eq_dec i0 (tlen ti)) as [->|Hne2].
+              ** rewrite Hnew in Ht. congruence.
+              ** assert (Hi' : i0 < tlen ti) by lia. rewrite Hold in Ht by auto. apply HB; auto.
       * rewrite Hlen. lia.
-      * exact Hold.
-      * rewrite Hlen. lia.
-      * intros t0 i0 H. unfold get_index. simpl.
-        destruct (N.eqb_spec t t0) as [->|Hne2]; [unfold get_index in *; congruence|]. exact H.
-      * unfold get_index. simpl. rewrite N.eqb_refl. reflexivity.
-      * unfold intern. rewrite Mf. fold (tlen ti).
-        assert (Hc : (max <=? tlen ti) = false) by (apply N.leb_gt; lia).
-        simpl. rewrite Hc. reflexivity.
+      * split; [exact Hold|]. split; [lia|]. split.
+        -- intros t0 i0 H. rewrite Hgi. destruct (N.eqb_spec t t0) as [<-|Hne2]; [congruence|]. exact H.
+        -- split.
+           ++ rewrite Hgi, N.eqb_refl. reflexivity.
+           ++ unfold intern. rewrite Mf. fold (tlen ti).
+              assert (Hc : (max <=? tlen ti) = false) by (apply N.leb_gt; lia).
+              rewrite Hc, Hi2t. reflexivity.
 Qed.
